@@ -128,24 +128,10 @@ def run_child(out, k, N, extra_rate=None, interrupt_at=None):
     return p
 
 
-def scenario(workdir, compress, k, N1=4, N2=6, extra_rate=None, interrupt_at=None):
-    """crash at effect point k during a run to N1 trials, then restart to N2 trials; returns None or a failure string"""
-    out = os.path.join(workdir, 'out.json' + ('.gz' if compress else ''))
-    for f in os.listdir(workdir):
-        os.unlink(os.path.join(workdir, f))
-    p1 = run_child(out, k, N1, None, interrupt_at)
-    crashed = p1.returncode == 17
-    if p1.returncode not in (0, 17):
-        return 'first run failed on its own: %s' % p1.stderr[-300:], crashed
-    snap = None
-    if os.path.exists(out + '.completed'):
-        snap = json.load(open(out + '.completed'))
-    p2 = run_child(out, 0, N2, extra_rate)
-    if p2.returncode != 0:
-        return 'restart after a crash at effect point %d raises: %s' % (k, p2.stderr.strip().splitlines()[-1][:200] if p2.stderr.strip() else p2.returncode), crashed
+def verify(out, N2, nsim, snap, crashed=False):
+    """post-condition of C12 on the results file `out` after the final run to N2 trials"""
     from panqec.utils import load_json
     data = load_json(out)
-    nsim = 2 + (1 if extra_rate is not None else 0)
     if len(data) != nsim:
         return 'results file holds %d simulations, expected %d' % (len(data), nsim), crashed
     for i, rec in enumerate(data):
@@ -175,5 +161,93 @@ def scenario(workdir, compress, k, N1=4, N2=6, extra_rate=None, interrupt_at=Non
     return None, crashed
 
 
-if __name__ == '__main__' and len(sys.argv) > 1 and sys.argv[1] == 'child':
+def scenario(workdir, compress, k, N1=4, N2=6, extra_rate=None, interrupt_at=None):
+    """crash at effect point k during a run to N1 trials, then restart to N2 trials; returns None or a failure string"""
+    out = os.path.join(workdir, 'out.json' + ('.gz' if compress else ''))
+    for f in os.listdir(workdir):
+        os.unlink(os.path.join(workdir, f))
+    p1 = run_child(out, k, N1, None, interrupt_at)
+    crashed = p1.returncode == 17
+    if p1.returncode not in (0, 17):
+        return 'first run failed on its own: %s' % p1.stderr[-300:], crashed
+    snap = None
+    if os.path.exists(out + '.completed'):
+        snap = json.load(open(out + '.completed'))
+    p2 = run_child(out, 0, N2, extra_rate)
+    if p2.returncode != 0:
+        return 'restart after a crash at effect point %d raises: %s' % (k, p2.stderr.strip().splitlines()[-1][:200] if p2.stderr.strip() else p2.returncode), crashed
+    nsim = 2 + (1 if extra_rate is not None else 0)
+    return verify(out, N2, nsim, snap, crashed)
+
+
+
+def child_history(out, N, plan, interrupts):
+    """one process, several run() calls: `plan` is a string such as 'AAA' or 'ABB' - a new letter builds a NEW BatchSimulation from the same specification,
+    a repeated letter calls run(N) AGAIN on the same object (what a notebook user does after Ctrl-C); KeyboardInterrupt is raised inside the trial whose global
+    serial number is in `interrupts`.  The last call is never interrupted."""
+    warnings.filterwarnings('ignore')
+    import contextlib
+    import numpy as np
+    import panqec.utils as U
+    import panqec.simulation._batch_simulation as B
+    import panqec.simulation._direct_simulation as DSm
+    side = out + '.completed'
+    real_save = U.save_json
+
+    def save_and_record(data, file):
+        r = real_save(data, file)
+        with open(side, 'w') as f:
+            json.dump(json.loads(json.dumps(data, cls=U.NumpyEncoder)), f)
+        return r
+    B.save_json = save_and_record
+    orig = DSm.run_once
+    cnt = {'n': 0}
+    todo = set(interrupts)
+
+    def ro(*a, **kw):
+        cnt['n'] += 1
+        if cnt['n'] in todo:
+            todo.discard(cnt['n'])
+            raise KeyboardInterrupt()
+        r = orig(*a, **kw)
+        r['effective_error'] = np.array([os.getpid() % 1000003, cnt['n']])
+        return r
+    DSm.run_once = ro
+    objs = {}
+    with contextlib.redirect_stdout(io.StringIO()):
+        for idx, letter in enumerate(plan):
+            if letter not in objs:
+                objs[letter] = B.read_input_dict(json.loads(json.dumps(SPEC)), out, verbose=False)
+            objs[letter].run(N)
+            if os.path.exists(side):          # what the last completed save of this call holds
+                with open(side) as f_, open('%s.%d' % (side, idx), 'w') as g_:
+                    g_.write(f_.read())
+    print(json.dumps({'n': [s.n_results for s in objs[plan[-1]]], 'pending_interrupts': sorted(todo)}))
+
+
+def scenario_history(workdir, compress, plan, interrupts, N=8):
+    """several run() calls in one process (same object re-run after KeyboardInterrupt); returns None or a failure string"""
+    out = os.path.join(workdir, 'out.json' + ('.gz' if compress else ''))
+    for f in os.listdir(workdir):
+        os.unlink(os.path.join(workdir, f))
+    here = os.path.dirname(os.path.dirname(os.path.abspath(__file__)))
+    p = subprocess.run([sys.executable, '-m', 'bounded.crash', 'history', out, str(N), plan, json.dumps(list(interrupts))],
+                       capture_output=True, text=True, cwd=here, timeout=600, env=dict(os.environ, PYTHONWARNINGS='ignore'))
+    if p.returncode != 0:
+        return 'run() history %s with interrupts %s raises: %s' % (plan, list(interrupts), p.stderr.strip().splitlines()[-1][:200] if p.stderr.strip() else p.returncode)
+    info = json.loads(p.stdout.strip().splitlines()[-1])
+    if info['pending_interrupts']:
+        return None                        # the plan finished before every interrupt was delivered: not a history of the intended kind, nothing claimed
+    for idx in range(len(plan)):
+        sp = '%s.completed.%d' % (out, idx)
+        snap = json.load(open(sp)) if os.path.exists(sp) else None
+        why, _ = verify(out, N, 2, snap)
+        if why:
+            return 'history %s (same letter = run() again on the same object), interrupts in trials %s: %s' % (plan, list(interrupts), why)
+    return None
+
+
+if __name__ == '__main__' and len(sys.argv) > 1 and sys.argv[1] == 'history':
+    child_history(sys.argv[2], int(sys.argv[3]), sys.argv[4], json.loads(sys.argv[5]))
+elif __name__ == '__main__' and len(sys.argv) > 1 and sys.argv[1] == 'child':
     child(sys.argv[2], int(sys.argv[3]), int(sys.argv[4]), json.loads(sys.argv[5]) if len(sys.argv) > 5 else None, json.loads(sys.argv[6]) if len(sys.argv) > 6 else None)
